@@ -12,11 +12,12 @@ import z3
 
 from .. import driver, extract
 from ..symrt import term, explore, call, active, SymNum
-from .predutil import PredictWorld, eq_rec, ge_rec, shapes, std_replay
+from .predutil import PredictWorld, eq_rec, ge_rec, shapes, std_replay, generic_guard
 
 PROP = "C12"
 
 
+@generic_guard("C12")
 def unit(model, sizes, generic=False):
     """generic: sizes = (1,)*n and every team has a symbolic number of members (the listed member is
     the arbitrary one, the aggregates are symbols): the same obligations for teams of every size"""
